@@ -112,6 +112,9 @@ func (c *FenceConn) BeginTx(ctx context.Context, opts driver.TxOptions) (driver.
 	}
 
 	if !tm.IsSeataContext(ctx) {
+		if rbErr := tx.Rollback(); rbErr != nil {
+			log.Error(rbErr)
+		}
 		return nil, errors.New("there is not seata context")
 	}
 
@@ -124,6 +127,10 @@ func (c *FenceConn) BeginTx(ctx context.Context, opts driver.TxOptions) (driver.
 
 	fenceTx, err := c.TargetDB.BeginTx(ctx, &sql.TxOptions{})
 	if err != nil {
+		// the business transaction is already begun on this connection: do not hand the connection back with it open
+		if rbErr := tx.Rollback(); rbErr != nil {
+			log.Error(rbErr)
+		}
 		return nil, err
 	}
 	defer func() {
